@@ -2488,6 +2488,1036 @@ def gen_portable():
     return "\n".join(out)
 
 
+# ---------------------------------------------------------------------------
+# GenCHasherSmall.v: the small, loop-free functions of c/blake3.c (and load_key_words / store_cv_words of
+# c/blake3_impl.h), translated statement by statement.
+#
+# Representation
+#   * `typedef struct {..} T;` -> Record src_T with one field per member, in declaration order, named T_<member>;
+#     a field store `p->f = e` / `s.f = e` is the record update set_T_f.  uintN_t / size_t scalars are N, `bool` is
+#     bool, arrays of uint8_t / uint32_t are `list N` (Base/Arr.v), a nested struct is the nested record.
+#     blake3_hasher.cv_stack is not interpreted here (no function translated below touches it): its type is the
+#     parameter S of src_blake3_hasher, and any access to it is an AnchorError.
+#   * a function becomes `src_<name>`: parameters in source order (a pointer to a struct is the struct value, a
+#     pointer + length pair stays two parameters); the result is the tuple of the pointer / array parameters the body
+#     writes, in parameter order, followed by the C return value.
+#   * functions that are called but not translated (the dispatcher entry blake3_compress_in_place, the two loops
+#     blake3_hasher_update_base / blake3_hasher_finalize_seek, strlen) are explicit function parameters ext_<name>
+#     whose type follows from the prototype found in the source by the same rules.
+#   * memcpy(d, s, n) -> arr_store d off (firstn (n / sizeof elem) s), memset(d, c, n) -> arr_store d 0 (repeat c ..);
+#     a constant n is evaluated with the #defines of c/blake3.h; a local pointer `T *q = a + e` is the pair (a, e).
+#   * locals declared without initialiser are zero-filled values of their declared shape (a struct with an
+#     uninterpreted member becomes an extra parameter <local>_uninit); reading a local array / returning a local
+#     struct before everything in it has been written is an AnchorError.
+#   * integer expressions: `|` -> N.lor; `-`, `+`, `+=` at the width of the C operation -> mi_sub / mi_add of
+#     Base/MachInt.v (stricter than C: wrap-around is a Panic); a cast to a type at least as wide as its operand is
+#     the identity, a narrowing cast is mi_cast; an assignment / argument must fit the target type without truncation.
+# Everything that is not one of these shapes raises AnchorError: no statement is ever skipped.
+# ---------------------------------------------------------------------------
+_CS_TOK = re.compile(r"(?P<num>0[xX][0-9a-fA-F]+|\d+)[uUlL]*|(?P<id>[A-Za-z_]\w*)"
+                     r"|(?P<op>->|\+=|==|!=|<=|>=|<<|>>|&&|\|\||[-+*/%&|^!~<>=().,\[\]{};])")
+_CS_INT = {"uint8_t": 8, "uint32_t": 32, "uint64_t": 64, "size_t": 64}
+_CS_BYTEPTR = ("void", "char")           # `const void *` / `const char *` data is read as bytes
+
+
+def _cs_tokens(text, name):
+    out, i = [], 0
+    while True:
+        while i < len(text) and text[i].isspace():
+            i += 1
+        if i >= len(text):
+            return out
+        m = _CS_TOK.match(text, i)
+        if not m:
+            raise AnchorError(f"{name}: cannot tokenize {text[i:i + 20]!r}")
+        if m.group("num") is not None:
+            out.append(("num", int(m.group("num"), 0)))
+        elif m.group("id") is not None:
+            out.append(("id", m.group("id")))
+        else:
+            out.append(("op", m.group("op")))
+        i = m.end()
+
+
+class CSParser:
+    """statements: ('if', cond, [stmts], [stmts]|None) ('return', e) ('decl', const, tyname, star, name, len|None, init|None)
+                   ('expr', e)
+       expressions: ('num', v) ('var', x) ('bin', op, a, b) ('un', op, a) ('cast', tyname, a) ('call', f, [args])
+                    ('index', a, i) ('field', a, f) ('arrow', a, f) ('assign', op, lhs, rhs)"""
+    PREC = {"||": 1, "&&": 2, "|": 3, "^": 4, "&": 5, "==": 6, "!=": 6, "<": 7, ">": 7, "<=": 7, ">=": 7,
+            "<<": 8, ">>": 8, "+": 9, "-": 9, "*": 10, "/": 10, "%": 10}
+
+    def __init__(self, toks, name, typenames):
+        self.t, self.i, self.name, self.types = toks, 0, name, typenames
+
+    def err(self, msg):
+        return AnchorError(f"{self.name}: {msg} at {self.t[self.i:self.i + 6]!r}")
+
+    def peek(self, k=0):
+        return self.t[self.i + k] if self.i + k < len(self.t) else ("eof", None)
+
+    def next(self):
+        tok = self.peek()
+        self.i += 1
+        return tok
+
+    def accept(self, op):
+        if self.peek() == ("op", op):
+            self.i += 1
+            return True
+        return False
+
+    def expect(self, op):
+        if not self.accept(op):
+            raise self.err(f"expected {op!r}")
+
+    def ident(self):
+        k, v = self.next()
+        if k != "id":
+            raise self.err("expected an identifier")
+        return v
+
+    # ---- statements ----
+    def stmts_until(self, end):
+        out = []
+        while self.peek() != end:
+            if self.peek()[0] == "eof":
+                raise self.err("unexpected end")
+            out.append(self.stmt())
+        return out
+
+    def block(self):
+        self.expect("{")
+        s = self.stmts_until(("op", "}"))
+        self.expect("}")
+        return s
+
+    def is_type_start(self):
+        k, v = self.peek()
+        return k == "id" and (v == "const" or v in self.types)
+
+    def stmt(self):
+        k, v = self.peek()
+        if (k, v) == ("id", "if"):
+            self.next()
+            self.expect("(")
+            c = self.expr(0)
+            self.expect(")")
+            th = self.block()
+            el = None
+            if self.peek() == ("id", "else"):
+                self.next()
+                el = self.block()
+            return ("if", c, th, el)
+        if (k, v) == ("id", "return"):
+            self.next()
+            e = self.expr(0)
+            self.expect(";")
+            return ("return", e)
+        if k == "id" and v in ("while", "for", "do", "switch", "goto", "break", "continue", "else"):
+            raise self.err(f"statement {v!r} is not translated")
+        if self.is_type_start() and not (self.peek(1) == ("op", "(")):
+            d = self.decl()
+            self.expect(";")
+            return d
+        e = self.expr(0, assign=True)
+        self.expect(";")
+        return ("expr", e)
+
+    def decl(self, param=False):
+        const = False
+        if self.peek() == ("id", "const"):
+            self.next()
+            const = True
+        ty = self.ident()
+        if ty not in self.types:
+            raise self.err(f"unknown type {ty!r}")
+        star = self.accept("*")
+        name = self.ident()
+        ln = None
+        has_len = False
+        if self.accept("["):
+            has_len = True
+            ln = self.expr(0)
+            self.expect("]")
+        init = None
+        if not param and self.accept("="):
+            init = self.expr(0)
+        return ("decl", const, ty, star, name, ln if has_len else None, init)
+
+    def params(self):
+        out = []
+        if self.peek() == ("id", "void") and self.peek(1)[0] == "eof":
+            return out
+        while True:
+            out.append(self.decl(param=True))
+            if self.peek()[0] == "eof":
+                return out
+            self.expect(",")
+
+    # ---- expressions ----
+    def expr(self, minprec, assign=False):
+        lhs = self.unary()
+        if assign and self.peek() in (("op", "="), ("op", "+=")):
+            op = self.next()[1]
+            return ("assign", op, lhs, self.expr(0))
+        while True:
+            k, v = self.peek()
+            if k == "op" and v in self.PREC and self.PREC[v] >= minprec:
+                self.next()
+                rhs = self.expr(self.PREC[v] + 1)
+                lhs = ("bin", v, lhs, rhs)
+                continue
+            return lhs
+
+    def unary(self):
+        k, v = self.peek()
+        if k == "op" and v in ("-", "!", "~", "&", "*"):
+            self.next()
+            return ("un", v, self.unary())
+        if (k, v) == ("op", "(") and self.peek(1)[0] == "id" and self.peek(1)[1] in self.types \
+                and self.peek(2) == ("op", ")"):
+            self.i += 3
+            return ("cast", self.t[self.i - 2][1], self.unary())
+        return self.postfix(self.primary())
+
+    def primary(self):
+        k, v = self.next()
+        if k == "num":
+            return ("num", v)
+        if k == "id":
+            if self.accept("("):
+                args = []
+                if not self.accept(")"):
+                    while True:
+                        args.append(self.expr(0))
+                        if self.accept(")"):
+                            break
+                        self.expect(",")
+                return ("call", v, args)
+            return ("var", v)
+        if (k, v) == ("op", "("):
+            e = self.expr(0)
+            self.expect(")")
+            return e
+        self.i -= 1
+        raise self.err("unexpected token")
+
+    def postfix(self, e):
+        while True:
+            if self.accept("."):
+                e = ("field", e, self.ident())
+            elif self.accept("->"):
+                e = ("arrow", e, self.ident())
+            elif self.accept("["):
+                i = self.expr(0)
+                self.expect("]")
+                e = ("index", e, i)
+            else:
+                return e
+
+
+class CSCtx:
+    """what the translated functions share: struct layouts, constants, signatures of everything callable"""
+
+    def __init__(self, ints, flags, arrays, opaque):
+        self.ints, self.flags, self.arrays, self.opaque = ints, flags, arrays, opaque
+        self.structs, self.poly, self.funcs, self.out = {}, set(), {}, []
+
+    def typenames(self):
+        return set(_CS_INT) | {"bool", "void", "char"} | set(self.structs)
+
+    def const_int(self, ast, name):
+        return const_eval(ast, self.ints, name)
+
+    # ---- struct declarations ----
+    def add_struct(self, text, sname):
+        m = find1(r"typedef\s+struct\s*\{([^{}]*)\}\s*" + sname + r"\s*;", text, "struct " + sname)
+        p = CSParser(_cs_tokens(m.group(1), sname), sname, self.typenames())
+        fields = []
+        while p.peek()[0] != "eof":
+            d = p.decl(param=True)
+            p.expect(";")
+            _, const, ty, star, fname, ln, _ = d
+            if const or star:
+                raise AnchorError(f"struct {sname}: member {fname}")
+            if (sname, fname) in self.opaque:
+                if ln is None:
+                    raise AnchorError(f"struct {sname}: uninterpreted member {fname} is not an array")
+                fields.append((fname, ("opaque",)))
+            elif ty in _CS_INT:
+                fields.append((fname, ("arr", _CS_INT[ty], self.const_int(ln, sname)) if ln is not None
+                               else ("int", _CS_INT[ty])))
+            elif ty in self.structs and ln is None:
+                fields.append((fname, ("struct", ty)))
+            else:
+                raise AnchorError(f"struct {sname}: member {fname} of type {ty}")
+        for s, f in self.opaque:
+            if s == sname and f not in [x for x, _ in fields]:
+                raise AnchorError(f"struct {sname}: no member {f}")
+        self.structs[sname] = fields
+        if any(t == ("opaque",) or (t[0] == "struct" and t[1] in self.poly) for _, t in fields):
+            self.poly.add(sname)
+        self.emit_struct(sname)
+
+    def coq_type(self, t):
+        if t[0] == "int":
+            return "N"
+        if t[0] == "bool":
+            return "bool"
+        if t[0] == "arr":
+            return "list N"
+        if t[0] == "opaque":
+            return "S"
+        if t[0] in ("struct", "ptr"):
+            return f"(src_{t[1]} S)" if t[1] in self.poly else f"src_{t[1]}"
+        raise AnchorError(f"no Gallina type for {t!r}")
+
+    def is_poly(self, t):
+        return t[0] in ("struct", "ptr") and t[1] in self.poly
+
+    def zero_value(self, t, name):
+        if t[0] == "int":
+            return "0"
+        if t[0] == "arr" and t[2] is not None:
+            return f"(repeat 0 {t[2]}%nat)"
+        if t[0] == "struct" and t[1] not in self.poly:
+            return f"uninit_{t[1]}"
+        raise AnchorError(f"{name}: no zero value of type {t!r}")
+
+    def emit_struct(self, s):
+        fields = self.structs[s]
+        poly = s in self.poly
+        sp, ty = (" (S : Type)", f"(src_{s} S)") if poly else ("", f"src_{s}")
+        o = [f"Record src_{s}{sp} := mk_{s} {{\n"
+             + ";\n".join(f"  {s}_{f} : {self.coq_type(t)}" for f, t in fields) + " }.\n"]
+        if poly:
+            o.append(f"Arguments mk_{s} {{S}}" + " _" * len(fields) + ".\n"
+                     + "".join(f"Arguments {s}_{f} {{S}} _.\n" for f, _ in fields))
+        for f, t in fields:
+            args = " ".join("v" if g == f else f"({s}_{g} s)" for g, _ in fields)
+            o.append(f"Definition set_{s}_{f}{' {S : Type}' if poly else ''} (s : {ty}) (v : {self.coq_type(t)}) : {ty} :=\n"
+                     f"  mk_{s} {args}.\n")
+        if not poly:
+            o.append(f"Definition uninit_{s} : {ty} :=\n  mk_{s} "
+                     + " ".join(self.zero_value(t, s) for _, t in fields) + ".\n")
+        self.out.append("".join(o))
+
+    # ---- signatures ----
+    def param_type(self, d, name):
+        _, const, ty, star, pname, ln, _ = d
+        if ty in self.structs:
+            if not star or ln is not None:
+                raise AnchorError(f"{name}: struct parameter {pname} is not a pointer")
+            return ("ptr", ty)
+        if ty in _CS_BYTEPTR:
+            if not (star and const and ln is None):
+                raise AnchorError(f"{name}: parameter {pname}")
+            return ("arr", 8, None)
+        if ty == "bool" and not star and ln is None:
+            return ("bool",)
+        if ty in _CS_INT:
+            if star and ln is None:
+                if _CS_INT[ty] != 8:
+                    raise AnchorError(f"{name}: pointer parameter {pname}")
+                return ("arr", 8, None)
+            if ln is not None and not star:
+                return ("arr", _CS_INT[ty], self.const_int(ln, name))
+            if not star:
+                return ("int", _CS_INT[ty])
+        raise AnchorError(f"{name}: parameter {pname} of type {ty}")
+
+    def signature(self, name, ptext, rtype):
+        p = CSParser(_cs_tokens(ptext, name), name, self.typenames())
+        params = []
+        for d in p.params():
+            params.append((d[4], self.param_type(d, name), d[1]))
+        if rtype == "void":
+            ret = None
+        elif rtype in _CS_INT:
+            ret = ("int", _CS_INT[rtype])
+        elif rtype in self.structs:
+            ret = ("struct", rtype)
+        else:
+            raise AnchorError(f"{name}: return type {rtype!r}")
+        return params, ret
+
+    def result_type(self, f):
+        parts = [self.coq_type(f["params"][i][1]) for i in f["inouts"]]
+        if f["ret"] is not None:
+            parts.append(self.coq_type(f["ret"]))
+        if not parts:
+            raise AnchorError(f"{f['c']}: neither a result nor a written parameter")
+        t = parts[0] if len(parts) == 1 else "(" + " * ".join(parts) + ")"
+        if f["res"]:
+            return f"res {t}" if " " not in t or t.startswith("(") else f"res ({t})"
+        return t
+
+    def fun_type(self, f):
+        return " -> ".join([self.coq_type(t) for _, t, _ in f["params"]] + [self.result_type(f)])
+
+    def add_external(self, name, params, ret, res):
+        inouts = [i for i, (_, t, const) in enumerate(params) if t[0] in ("arr", "ptr") and not const]
+        self.funcs[name] = {"c": name, "coq": "ext_" + name, "params": params, "ret": ret, "inouts": inouts, "res": res,
+                            "exts": [name], "extras": [], "external": True,
+                            "poly": any(self.is_poly(t) for _, t, _ in params)}
+
+    def external_from_source(self, text, name, header_re, res, prototype):
+        m = find1(header_re, text, "ext " + name)
+        i = m.end() - 1
+        depth, j = 0, i
+        while j < len(text):
+            if text[j] == "(":
+                depth += 1
+            elif text[j] == ")":
+                depth -= 1
+                if depth == 0:
+                    break
+            j += 1
+        else:
+            raise AnchorError(f"ext {name}: unbalanced parentheses")
+        if text[i] != "(" or text[j + 1:].lstrip()[:1] != (";" if prototype else "{"):
+            raise AnchorError(f"ext {name}: not a {'prototype' if prototype else 'definition'}")
+        params, ret = self.signature(name, text[i + 1:j], m.group(1))
+        self.add_external(name, params, ret, res)
+
+
+class CSFn:
+    def __init__(self, ctx, text, cname):
+        self.ctx, self.c, self.name = ctx, cname, "src_" + cname
+        hdr = r"\b(?:INLINE\s+)?(void|size_t|uint8_t|uint32_t|uint64_t|output_t)\s+" + cname + r"\s*\("
+        m = find1(hdr, text, self.name)
+        ptext, between = _fn_header(text, hdr, self.name)
+        if between:
+            raise AnchorError(f"{self.name}: text between ')' and '{{': {between!r}")
+        self.params, self.ret = ctx.signature(self.name, ptext, m.group(1))
+        body = fn_body(text, hdr, self.name)
+        self.stmts = CSParser(_cs_tokens(body, self.name), self.name, ctx.typenames()).stmts_until(("eof", None))
+        self.env, self.lines, self.written, self.exts, self.extras = {}, [], set(), [], []
+        self.monadic, self.tmp, self.poly = False, 0, False
+        for pname, t, const in self.params:
+            self.declare(pname, t, const=const, param=True)
+
+    def err(self, msg):
+        return AnchorError(f"{self.name}: {msg}")
+
+    # ---- environment ----
+    def declare(self, v, t, const=False, param=False, uninit=None):
+        if v in self.env or v in self.ctx.ints or v in self.ctx.flags or v in self.ctx.arrays or v in self.ctx.funcs:
+            raise self.err(f"{v} is declared twice or shadows a constant")
+        if self.ctx.is_poly(t):
+            self.poly = True
+        self.env[v] = {"type": t, "const": const, "param": param, "uninit": uninit}
+
+    def fresh(self):
+        self.tmp += 1
+        return f"t{self.tmp}"
+
+    def let(self, v, term, res=False, note=None):
+        note = f"   (* {note} *)" if note else ""
+        if res:
+            self.monadic = True
+            self.lines.append(f"  {v} <- {term} ;;{note}")
+        else:
+            self.lines.append(f"  let {v} := {term} in{note}")
+
+    # ---- object paths: (root variable, [members], type, is_pointer) ----
+    def path(self, ast):
+        k = ast[0]
+        if k == "var":
+            e = self.env.get(ast[1])
+            if e is None or e["type"][0] == "alias":
+                raise self.err(f"unknown object {ast[1]}")
+            t = e["type"]
+            if t[0] == "ptr":
+                return ast[1], [], ("struct", t[1]), True
+            return ast[1], [], t, False
+        if k in ("arrow", "field"):
+            root, fs, t, isptr = self.path(ast[1])
+            if t[0] != "struct":
+                raise self.err(f"member {ast[2]} of a non-struct")
+            if (k == "arrow") != isptr:
+                raise self.err(f"'{'->' if k == 'arrow' else '.'}{ast[2]}' applied to a {'pointer' if isptr else 'struct value'}")
+            for f, ft in self.ctx.structs[t[1]]:
+                if f == ast[2]:
+                    if ft == ("opaque",):
+                        raise self.err(f"access to the uninterpreted member {t[1]}.{f}")
+                    return root, fs + [f], ft, False
+            raise self.err(f"struct {t[1]} has no member {ast[2]}")
+        if k == "un" and ast[1] == "&":
+            root, fs, t, isptr = self.path(ast[2])
+            if t[0] != "struct" or isptr:
+                raise self.err("'&' of something that is not a struct value")
+            return root, fs, t, True
+        raise self.err(f"not an object: {ast!r}")
+
+    def read(self, root, fs):
+        e = self.env[root]
+        term, t = root, e["type"]
+        t = ("struct", t[1]) if t[0] == "ptr" else t
+        for f in fs:
+            if e["uninit"] is not None and f in e["uninit"]:
+                raise self.err(f"{root}.{f} is read before it is written")
+            term = f"({t[1]}_{f} {term})"
+            t = dict(self.ctx.structs[t[1]])[f]
+        if not fs and e["uninit"]:
+            raise self.err(f"{root} is read before all of it is written")
+        return term
+
+    def write(self, root, fs, value, note=None, whole=True):
+        e = self.env[root]
+        if e["const"]:
+            raise self.err(f"write through the const parameter {root}")
+        t = e["type"]
+        t = ("struct", t[1]) if t[0] == "ptr" else t
+
+        def upd(term, t, fs):
+            if not fs:
+                return value
+            inner = upd(f"({t[1]}_{fs[0]} {term})", dict(self.ctx.structs[t[1]])[fs[0]], fs[1:])
+            return f"(set_{t[1]}_{fs[0]} {term} {inner})"
+        term = upd(root, t, fs)
+        self.let(root, term[1:-1] if fs else term, note=note)
+        if e["param"]:
+            self.written.add(root)
+        if e["uninit"] is not None and whole:
+            if fs:
+                e["uninit"].discard(fs[0]) if len(fs) == 1 else None
+            else:
+                e["uninit"] = set()
+
+    # ---- scalar expressions: (term : N or bool, type) with type ('int', w) | ('lit', value) | ('bool',) ----
+    def fits(self, t, target):
+        if target[0] == "bool":
+            return t[0] == "bool"
+        if t[0] == "lit":
+            return t[1] < (1 << target[1])
+        return t[0] == "int" and t[1] <= target[1]
+
+    def val(self, ast, top=False):
+        """pure term; a checked operation is bound to a fresh name first (or returned unbound when top=True: then the
+        third component is True and the term has type res N)"""
+        term, t, res = self.val0(ast)
+        if res and not top:
+            v = self.fresh()
+            self.let(v, term, res=True)
+            return v, t, False
+        return term, t, res
+
+    def val0(self, ast):
+        k = ast[0]
+        if k == "num":
+            return str(ast[1]), ("lit", ast[1]), False
+        if k == "var":
+            v = ast[1]
+            if v in self.env:
+                t = self.env[v]["type"]
+                if t[0] in ("int", "bool"):
+                    return v, t, False
+                raise self.err(f"{v} is not a scalar")
+            if v in self.ctx.ints:
+                return self.ctx.ints_coq[v], ("lit", self.ctx.ints[v]), False
+            if v in self.ctx.flags:
+                return "c_flag_" + v, ("lit", self.ctx.flags[v]), False
+            if v in ("false", "true"):
+                return v, ("bool",), False
+            raise self.err(f"unknown identifier {v}")
+        if k in ("arrow", "field"):
+            root, fs, t, _ = self.path(ast)
+            if t[0] != "int":
+                raise self.err(f"member {ast[2]} is not a scalar")
+            return self.read(root, fs), t, False
+        if k == "cast":
+            if ast[1] not in _CS_INT:
+                raise self.err(f"cast to {ast[1]}")
+            w = _CS_INT[ast[1]]
+            a, t, _ = self.val(ast[2])
+            if self.fits(t, ("int", w)):
+                return a, ("int", w), False          # value-preserving
+            return f"mi_cast {w} {a}", ("int", w), True
+        if k == "bin" and ast[1] == "|":
+            a, ta, _ = self.val(ast[2])
+            b, tb, _ = self.val(ast[3])
+            ws = [t[1] if t[0] == "int" else max(1, t[1].bit_length()) for t in (ta, tb) if t[0] in ("int", "lit")]
+            if len(ws) != 2:
+                raise self.err(f"operands of '|': {ast!r}")
+            return f"(N.lor {a} {b})", ("int", max(8, max(ws))), False
+        if k == "bin" and ast[1] in ("+", "-"):
+            a, ta, _ = self.val(ast[2])
+            b, tb, _ = self.val(ast[3])
+            ws = [t[1] for t in (ta, tb) if t[0] == "int"]
+            if not ws or max(ws) != 64 or any(t[0] not in ("int", "lit") for t in (ta, tb)):
+                raise self.err(f"arithmetic that is not at size_t / uint64_t width: {ast!r}")
+            return f"{'mi_add' if ast[1] == '+' else 'mi_sub'} 64 {a} {b}", ("int", 64), True
+        if k == "call":
+            return self.call(ast, value=True)
+        raise self.err(f"cannot translate expression {ast!r}")
+
+    def cond(self, ast):
+        if ast[0] == "bin" and ast[1] in ("==", ">", "<"):
+            a, ta, _ = self.val(ast[2])
+            b, tb, _ = self.val(ast[3])
+            if any(t[0] not in ("int", "lit") for t in (ta, tb)):
+                raise self.err(f"comparison {ast!r}")
+            return {"==": f"({a} =? {b})", "<": f"({a} <? {b})", ">": f"({b} <? {a})"}[ast[1]]
+        raise self.err(f"condition {ast!r}")
+
+    # ---- arrays ----
+    def arr_r(self, ast):
+        """array rvalue: (term, element width, length or None)"""
+        if ast[0] == "var" and ast[1] in self.ctx.arrays and ast[1] not in self.env:
+            return self.ctx.arrays[ast[1]]
+        if ast[0] == "var" and self.env.get(ast[1], {}).get("type", ("",))[0] == "alias":
+            raise self.err(f"pointer {ast[1]} read as an array")
+        root, fs, t, _ = self.path(ast)
+        if t[0] != "arr":
+            raise self.err(f"not an array: {ast!r}")
+        return self.read(root, fs), t[1], t[2]
+
+    def arr_w(self, ast):
+        """array lvalue: (root, members, element width, length, offset term or None)"""
+        if ast[0] == "var" and self.env.get(ast[1], {}).get("type", ("",))[0] == "alias":
+            _, root, fs, w, ln, off = self.env[ast[1]]["type"]
+            return root, fs, w, ln, off
+        root, fs, t, _ = self.path(ast)
+        if t[0] != "arr":
+            raise self.err(f"not an array: {ast!r}")
+        return root, fs, t[1], t[2], None
+
+    def count(self, ast, w, what):
+        """memcpy / memset byte count -> (Gallina nat term, python int or None)"""
+        try:
+            n = self.ctx.const_int(ast, self.name)
+        except AnchorError:
+            n = None
+        if n is not None:
+            if n % (w // 8):
+                raise self.err(f"{what}: {n} bytes is not a whole number of elements")
+            return f"{n // (w // 8)}%nat", n // (w // 8)
+        a, t, _ = self.val(ast)
+        if w != 8 or t != ("int", 64):
+            raise self.err(f"{what}: variable byte count on a non-byte array")
+        return f"(N.to_nat {a})", None
+
+    def store(self, dst, data, n, src_text):
+        root, fs, w, ln, off = dst
+        if off is None and n is not None and ln is not None and n > ln:
+            raise self.err(f"{src_text}: {n} elements into an array of {ln}")
+        e = self.env[root]
+        cur = root
+        t = e["type"]
+        t = ("struct", t[1]) if t[0] == "ptr" else t
+        for f in fs:                                  # the current contents, even if not yet written
+            cur = f"({t[1]}_{f} {cur})"
+            t = dict(self.ctx.structs[t[1]])[f]
+        whole = off is None and n is not None and n == ln
+        self.write(root, fs, f"(arr_store {cur} {off or '0%nat'} {data})", note=src_text, whole=whole)
+
+    # ---- calls ----
+    def call(self, ast, value=False, ret_stmt=False):
+        fname, args = ast[1], ast[2]
+        f = self.ctx.funcs.get(fname)
+        if f is None:
+            raise self.err(f"call of {fname}, which is neither translated nor a declared external")
+        if len(args) != len(f["params"]):
+            raise self.err(f"call of {fname}: {len(args)} arguments for {len(f['params'])} parameters")
+        if f["poly"]:
+            self.poly = True
+        for x in f["exts"]:
+            if x not in self.exts:
+                self.exts.append(x)
+        terms, targets = [], []
+        for i, (a, (pname, pt, pconst)) in enumerate(zip(args, f["params"])):
+            if pt[0] in ("int", "bool"):
+                term, t, _ = self.val(a)
+                if not self.fits(t, pt):
+                    raise self.err(f"call of {fname}: argument {i + 1} does not fit the parameter {pname}")
+                terms.append(term)
+            elif pt[0] == "arr":
+                if i in f["inouts"]:
+                    root, fs, w, ln, off = self.arr_w(a)
+                    if off is not None:
+                        raise self.err(f"call of {fname}: offset pointer passed for {pname}")
+                    cur = root if not fs else None
+                    if cur is None:
+                        e = self.env[root]
+                        cur, t = root, e["type"]
+                        t = ("struct", t[1]) if t[0] == "ptr" else t
+                        for g in fs:
+                            cur = f"({t[1]}_{g} {cur})"
+                            t = dict(self.ctx.structs[t[1]])[g]
+                    targets.append((root, fs))
+                else:
+                    cur, w, ln = self.arr_r(a)
+                if w != pt[1] or (pt[2] is not None and ln is not None and ln < pt[2]):
+                    raise self.err(f"call of {fname}: array argument {i + 1} does not match {pname}")
+                terms.append(cur)
+            elif pt[0] == "ptr":
+                root, fs, t, isptr = self.path(a)
+                if not isptr or t != ("struct", pt[1]):
+                    raise self.err(f"call of {fname}: argument {i + 1} is not a pointer to {pt[1]}")
+                if i in f["inouts"]:
+                    e = self.env[root]
+                    cur, tt = root, e["type"]
+                    tt = ("struct", tt[1]) if tt[0] == "ptr" else tt
+                    for g in fs:
+                        cur = f"({tt[1]}_{g} {cur})"
+                        tt = dict(self.ctx.structs[tt[1]])[g]
+                    terms.append(cur)
+                    targets.append((root, fs))
+                else:
+                    terms.append(self.read(root, fs))
+            else:
+                raise self.err(f"call of {fname}: parameter {pname}")
+        for x, xt in f["extras"]:
+            if x not in [y for y, _ in self.extras]:
+                self.extras.append((x, xt))
+        head = [f["coq"]] + ["ext_" + x for x in (f["exts"] if not f.get("external") else [])] + terms \
+            + [x for x, _ in f["extras"]]
+        term = " ".join(head)
+        if value or ret_stmt:
+            if targets:
+                raise self.err(f"call of {fname} writes through its arguments inside an expression")
+            if f["ret"] is None:
+                raise self.err(f"call of {fname}: no value")
+            t = f["ret"]
+            return f"({term})" if not f["res"] else term, t, f["res"]
+        names = []
+        for root, fs in targets:
+            names.append(root if not fs else self.fresh())
+        if f["ret"] is not None:
+            raise self.err(f"call of {fname}: result discarded")
+        if not names:
+            raise self.err(f"call of {fname} has no effect")
+        pat = names[0] if len(names) == 1 else "'(" + ", ".join(names) + ")"
+        if f["res"]:
+            self.monadic = True
+            self.lines.append(f"  {pat} <- {term} ;;")
+        else:
+            self.lines.append(f"  let {pat} := {term} in")
+        for (root, fs), nm in zip(targets, names):
+            e = self.env[root]
+            if e["const"]:
+                raise self.err(f"call of {fname} writes through the const parameter {root}")
+            if fs:
+                self.write(root, fs, nm)
+            else:
+                if e["param"]:
+                    self.written.add(root)
+                if e["uninit"] is not None:
+                    e["uninit"] = set()
+        return None
+
+    # ---- statements ----
+    def stmt(self, s, last):
+        k = s[0]
+        if k == "decl":
+            return self.decl_stmt(s)
+        if k == "expr":
+            e = s[1]
+            if e[0] == "call" and e[1] in ("memcpy", "memset"):
+                return self.mem_stmt(e)
+            if e[0] == "call" and e[1] == "store32":
+                return self.store32_stmt(e)
+            if e[0] == "call":
+                return self.call(e)
+            if e[0] == "assign":
+                return self.assign(e)
+            raise self.err(f"expression statement {e!r}")
+        if k == "if" and s[3] is None:
+            c = self.cond(s[1])
+            if not s[2]:
+                raise self.err("empty if")
+            for b in s[2]:
+                if not (b[0] == "expr" and b[1][0] == "assign" and b[1][1] == "=" and b[1][2][0] == "var"
+                        and self.env.get(b[1][2][1], {}).get("type", ("",))[0] == "int"
+                        and not self.env[b[1][2][1]]["param"]):
+                    raise self.err(f"conditional statement {b!r}")
+                v = b[1][2][1]
+                n0 = len(self.lines)
+                a, t, _ = self.val(b[1][3])
+                if len(self.lines) != n0:
+                    raise self.err("checked arithmetic under a condition")
+                if not self.fits(t, self.env[v]["type"]):
+                    raise self.err(f"assignment to {v} truncates")
+                self.let(v, f"if {c} then {a} else {v}")
+            return None
+        raise self.err(f"statement {s!r} in this position")
+
+    def decl_stmt(self, s):
+        _, const, ty, star, v, ln, init = s
+        if ty in _CS_INT or ty == "bool":
+            t = ("bool",) if ty == "bool" else ("int", _CS_INT[ty])
+            if star:
+                # T *q = a + e
+                if ln is not None or init is None or t != ("int", 8) or const:
+                    raise self.err(f"pointer declaration {v}")
+                if init[0] == "bin" and init[1] == "+":
+                    root, fs, w, aln, off = self.arr_w(init[2])
+                    o, ot, _ = self.val(init[3])
+                    if off is not None or w != 8 or ot != ("int", 64):
+                        raise self.err(f"pointer declaration {v}")
+                    self.let(f"{v}_off", f"N.to_nat {o}")
+                    self.declare(v, ("alias", root, fs, w, aln, f"{v}_off"))
+                    return None
+                raise self.err(f"pointer declaration {v}")
+            if ln is not None:
+                if init is not None or const or t[0] != "int":
+                    raise self.err(f"array declaration {v}")
+                n = self.ctx.const_int(ln, self.name)
+                self.declare(v, ("arr", t[1], n), uninit={"*"})
+                self.let(v, f"repeat 0 {n}%nat")
+                return None
+            if init is None:
+                raise self.err(f"scalar {v} declared without initialiser")
+            term, it, res = self.val(init, top=True)
+            if not self.fits(it, t):
+                raise self.err(f"initialiser of {v} does not fit {ty}")
+            self.declare(v, t)
+            self.let(v, term, res=res)
+            return None
+        if ty in self.ctx.structs and not star and ln is None and init is None and not const:
+            t = ("struct", ty)
+            self.declare(v, t, uninit={f for f, _ in self.ctx.structs[ty]})
+            if ty in self.ctx.poly:
+                x = f"{v}_uninit"
+                self.extras.append((x, t))
+                self.let(v, x)
+            else:
+                self.let(v, f"uninit_{ty}")
+            return None
+        raise self.err(f"declaration {s!r}")
+
+    def store32_stmt(self, e):
+        # store32(&out[k], words[i])
+        a = e[2]
+        if not (len(a) == 2 and a[0][0] == "un" and a[0][1] == "&" and a[0][2][0] == "index" and a[1][0] == "index"):
+            raise self.err(f"store32 call {e!r}")
+        dst = self.arr_w(a[0][2][1])
+        k = self.ctx.const_int(a[0][2][2], self.name)
+        term, sw, sln = self.arr_r(a[1][1])
+        i = self.ctx.const_int(a[1][2], self.name)
+        if dst[2] != 8 or dst[4] is not None or sw != 32 or sln is None or i >= sln or dst[3] is None or k + 4 > dst[3]:
+            raise self.err(f"store32 call {e!r}")
+        root, fs = dst[0], dst[1]
+        self.write(root, fs, f"(arr_store {self.cur(root, fs)} {k}%nat (bytes_of_word (arr_get {term} {i}%nat)))",
+                   whole=False)
+        en = self.env[root]
+        if en["uninit"] is not None and not fs:
+            en.setdefault("assigned", set()).update(range(k, k + 4))
+            if en["assigned"] == set(range(dst[3])):
+                en["uninit"] = set()
+        return None
+
+    def mem_stmt(self, e):
+        fname, args = e[1], e[2]
+        if len(args) != 3:
+            raise self.err(f"{fname}: arguments")
+        dst = self.arr_w(args[0])
+        w = dst[2]
+        if fname == "memcpy":
+            term, sw, sln = self.arr_r(args[1])
+            if sw != w:
+                raise self.err("memcpy between arrays of different element types")
+            cnt, n = self.count(args[2], w, "memcpy")
+            if n is not None and sln is not None and n > sln:
+                raise self.err(f"memcpy reads {n} elements of an array of {sln}")
+            return self.store(dst, f"(firstn {cnt} {term})", n, "memcpy")
+        if args[1][0] != "num":
+            raise self.err("memset value")
+        cnt, n = self.count(args[2], w, "memset")
+        return self.store(dst, f"(repeat {args[1][1]} {cnt})", n, "memset")
+
+    def assign(self, e):
+        _, op, lhs, rhs = e
+        if lhs[0] == "index":
+            # a[i] = load32(&b[k])
+            root, fs, w, ln, off = self.arr_w(lhs[1])
+            i = self.ctx.const_int(lhs[2], self.name)
+            if op != "=" or off is not None or w != 32 or ln is None or i >= ln:
+                raise self.err(f"indexed assignment {e!r}")
+            if not (rhs[0] == "call" and rhs[1] == "load32" and len(rhs[2]) == 1 and rhs[2][0][0] == "un"
+                    and rhs[2][0][1] == "&" and rhs[2][0][2][0] == "index"):
+                raise self.err(f"indexed assignment {e!r}")
+            term, sw, sln = self.arr_r(rhs[2][0][2][1])
+            j = self.ctx.const_int(rhs[2][0][2][2], self.name)
+            if sw != 8 or (sln is not None and j + 4 > sln):
+                raise self.err(f"load32 argument {rhs!r}")
+            cur = self.cur(root, fs)
+            self.write(root, fs, f"(arr_set {cur} {i}%nat (le_load32 (skipn {j}%nat {term})))", whole=False)
+            en = self.env[root]
+            if en["uninit"] is not None and not fs:
+                en["uninit"].discard("*")
+                en.setdefault("assigned", set()).add(i)
+                if en["assigned"] != set(range(ln)):
+                    en["uninit"].add("*")
+            return None
+        if lhs[0] == "var":
+            v = lhs[1]
+            en = self.env.get(v)
+            if en is None or en["type"][0] != "int" or en["const"]:
+                raise self.err(f"assignment to {v}")
+            root, fs, t = v, [], en["type"]
+            old = v
+        else:
+            root, fs, t, _ = self.path(lhs)
+            if t[0] != "int":
+                raise self.err(f"assignment to a non-scalar {lhs!r}")
+            old = None
+        if op == "=":
+            term, rt, res = self.val(rhs, top=(not fs and lhs[0] == "var"))
+            if not self.fits(rt, t):
+                raise self.err(f"assignment {e!r} truncates")
+            if lhs[0] == "var":
+                if en["param"]:
+                    raise self.err(f"assignment to the parameter {v}")
+                return self.let(v, term, res=res)
+            return self.write(root, fs, term)
+        # +=
+        a, rt, _ = self.val(rhs)
+        if not self.fits(rt, t):
+            raise self.err(f"{e!r}: operand wider than the target")
+        cur = old if old is not None else self.read(root, fs)
+        v = self.fresh()
+        self.let(v, f"mi_add {t[1]} {cur} {a}", res=True)
+        if lhs[0] == "var":
+            return self.let(root, v)
+        return self.write(root, fs, v)
+
+    def cur(self, root, fs):
+        e = self.env[root]
+        cur, t = root, e["type"]
+        t = ("struct", t[1]) if t[0] == "ptr" else t
+        for f in fs:
+            cur = f"({t[1]}_{f} {cur})"
+            t = dict(self.ctx.structs[t[1]])[f]
+        return cur
+
+    def ret_value(self, e):
+        """the returned expression -> pure Gallina term of the return type (checked sub-terms are bound first)"""
+        if self.ret is None:
+            raise self.err("return with a value in a void function")
+        if self.ret[0] == "struct":
+            if e[0] == "call":
+                term, t, res = self.call(e, ret_stmt=True)
+                if t != self.ret:
+                    raise self.err("returned call has the wrong type")
+                if res:
+                    v = self.fresh()
+                    self.let(v, term, res=True)
+                    return v
+                return term
+            root, fs, t, isptr = self.path(e)
+            if t != self.ret or isptr:
+                raise self.err(f"returned object {e!r}")
+            if self.env[root]["uninit"]:
+                raise self.err(f"{root} is returned before {sorted(self.env[root]['uninit'])} are written")
+            return self.read(root, fs)
+        term, t, _ = self.val(e)
+        if not self.fits(t, self.ret):
+            raise self.err("returned value does not fit the return type")
+        return term
+
+    def translate(self):
+        ctx = self.ctx
+        stmts = list(self.stmts)
+        result = None
+        tail_if = None
+        if stmts and stmts[-1][0] == "return":
+            last = stmts.pop()
+        elif stmts and stmts[-1][0] == "if" and stmts[-1][3] is not None:
+            tail_if = stmts.pop()
+            last = None
+        else:
+            last = None
+            if self.ret is not None:
+                raise self.err("no return statement at the end")
+        for s in stmts:
+            self.stmt(s, False)
+        if last is not None:
+            result = self.ret_value(last[1])
+        elif tail_if is not None:
+            # if (c) { return a; } else { return b; }
+            _, c, th, el = tail_if
+            if len(th) != 1 or len(el) != 1 or th[0][0] != "return" or el[0][0] != "return":
+                raise self.err("if / else at the end is not a pair of returns")
+            n0 = len(self.lines)
+            cterm = self.cond(c)
+            a, b = self.ret_value(th[0][1]), self.ret_value(el[0][1])
+            if len(self.lines) != n0:
+                raise self.err("checked arithmetic under a condition")
+            result = f"(if {cterm} then {a} else {b})"
+        inouts = [i for i, (p, t, const) in enumerate(self.params) if p in self.written]
+        notes = [f"(* {p}: not const in the source, never written *)" for p, t, const in self.params
+                 if t[0] in ("arr", "ptr") and not const and p not in self.written]
+        for p in self.written:
+            if self.env[p]["type"][0] not in ("arr", "ptr"):
+                raise self.err(f"scalar parameter {p} is written")
+        parts = [self.params[i][0] for i in inouts] + ([result] if result is not None else [])
+        f = {"c": self.c, "coq": self.name, "params": self.params, "ret": self.ret, "inouts": inouts,
+             "res": self.monadic, "exts": self.exts, "extras": self.extras, "poly": self.poly}
+        rt = ctx.result_type(f)
+        final = parts[0] if len(parts) == 1 else "(" + ", ".join(parts) + ")"
+        if self.monadic:
+            final = f"Ok {final}"
+        sig = []
+        if self.poly or any(ctx.funcs[x]["poly"] for x in self.exts):
+            f["poly"] = True
+            sig.append("{S : Type}")
+        for x in self.exts:
+            sig.append(f"(ext_{x} : {ctx.fun_type(ctx.funcs[x])})")
+        for p, t, _ in self.params:
+            sig.append(f"({p} : {ctx.coq_type(t)})")
+        for x, t in self.extras:
+            sig.append(f"({x} : {ctx.coq_type(t)})")
+        ctx.funcs[self.c] = f
+        text = "".join(n + "\n" for n in notes)
+        text += f"Definition {self.name} " + " ".join(sig) + f"\n  : {rt} :=\n" \
+            + "".join(l + "\n" for l in self.lines) + f"  {final}.\n"
+        return text
+
+
+def gen_c_hasher_small():
+    h = strip_comments(src("c/blake3.h"))
+    ih = strip_comments(src("c/blake3_impl.h"))
+    c = strip_comments(src("c/blake3.c"))
+    ints, ints_coq = {}, {}
+    for k in ["KEY_LEN", "OUT_LEN", "BLOCK_LEN", "CHUNK_LEN", "MAX_DEPTH"]:
+        m = find1(r"#define\s+BLAKE3_" + k + r"\s+(\d+)", h, "c_" + k)
+        ints["BLAKE3_" + k], ints_coq["BLAKE3_" + k] = int(m.group(1)), "c_" + k
+    m = find1(r"enum\s+blake3_flags\s*\{(.*?)\}", ih, "c_flags")
+    flags = {nm: const_eval(parse_expr(e, nm), {}, nm) for nm, e in re.findall(r"(\w+)\s*=\s*([^,}]+)", m.group(1))}
+    find1(r"static const uint32_t IV\[8\]\s*=", ih, "c_IV")
+    ctx = CSCtx(ints, flags, {"IV": ("c_IV", 32, 8)}, {("blake3_hasher", "cv_stack")})
+    ctx.ints_coq = ints_coq
+    out = [HEADER.replace("Base.MachInt.", "Base.MachInt Base.Word Base.Arr.\nFrom V Require Import gen.GenConsts.")]
+    out.append("(* ---- struct declarations: c/blake3.h (blake3_chunk_state, blake3_hasher), c/blake3.c (output_t) ---- *)\n")
+    ctx.add_struct(h, "blake3_chunk_state")
+    ctx.add_struct(h, "blake3_hasher")
+    ctx.add_struct(c, "output_t")
+    out.extend(ctx.out)
+
+    # functions that are called but not translated: their prototypes are the source's
+    ctx.external_from_source(ih, "blake3_compress_in_place", r"\b(void)\s+blake3_compress_in_place\s*\(", False, True)
+    ctx.external_from_source(c, "blake3_hasher_update_base", r"\bINLINE\s+(void)\s+blake3_hasher_update_base\s*\(",
+                             True, False)
+    ctx.external_from_source(c, "blake3_hasher_finalize_seek", r"\b(void)\s+blake3_hasher_finalize_seek\s*\(",
+                             True, False)
+    find1(r"#include\s*<string\.h>", c, "c/blake3.c includes <string.h>")      # memcpy, memset, strlen
+    ctx.add_external("strlen", [("s", ("arr", 8, None), True)], ("int", 64), True)
+
+    out.append("(* ---- c/blake3_impl.h ---- *)\n")
+    for fn in ("load_key_words", "store_cv_words"):
+        out.append(CSFn(ctx, ih, fn).translate())
+    out.append("(* ---- c/blake3.c ---- *)\n")
+    for fn in ("chunk_state_init", "chunk_state_reset", "chunk_state_fill_buf", "chunk_state_maybe_start_flag",
+               "make_output", "output_chaining_value", "chunk_state_output", "parent_output", "hasher_init_base",
+               "blake3_hasher_init", "blake3_hasher_init_keyed", "blake3_hasher_update", "blake3_hasher_finalize",
+               "blake3_hasher_init_derive_key_raw", "blake3_hasher_init_derive_key", "blake3_hasher_reset"):
+        out.append(CSFn(ctx, c, fn).translate())
+    return "\n".join(out)
+
+
 def write_if_changed(path, text):
     try:
         with open(path) as f:
@@ -2602,7 +3632,7 @@ def gen_globals(c_objects, rs_archives, rs_crate="blake3", hook_prefixes=()):
 GENERATORS = [("GenConsts.v", gen_consts), ("GenFormulas.v", gen_formulas), ("GenTestVectors.v", gen_test_vectors),
               ("GenDispatch.v", gen_dispatch),
               ("GenAsmFrames.v", gen_asm_frames),
-              ("GenApi.v", gen_api), ("GenB3sum.v", gen_b3sum_literals), ("GenPortable.v", gen_portable),
+              ("GenApi.v", gen_api), ("GenB3sum.v", gen_b3sum_literals), ("GenPortable.v", gen_portable), ("GenCHasherSmall.v", gen_c_hasher_small),
               ("GenCounters.v", gen_counters)]
 
 
